@@ -244,6 +244,7 @@ def mon_out(stream, case, obs, want):
     first_connect_done = False
     clean_now = True
     persistent_v5 = cfg["proto"] == 5 and cfg["clean"] in (0, 3)
+    info_rec = []      # one entry per publish() call, in order: None (QoS 0 / refused) or {"mid", "done"}
     for st in tr.steps:
         i, t, p = st["i"], st["t"], st["p"]
         if t[0] == "cfg":
@@ -275,6 +276,9 @@ def mon_out(stream, case, obs, want):
         if t[0] == "publish":
             q = int(t[1])
             ret = [e for e in st["evs"] if e.startswith("ret:")]
+            if ret:
+                _rc0 = int(ret[0].split(":")[1])
+                info_rec.append({"mid": int(ret[0].split(":")[2]), "done": False} if q > 0 and _rc0 in (0, 4) else None)
             if ret and q > 0:
                 _, rc, mid = ret[0].split(":")
                 rc, mid = int(rc), int(mid)
@@ -350,6 +354,17 @@ def mon_out(stream, case, obs, want):
                     hits.append((i, "dup-qos0", "QoS 0 PUBLISH with DUP=1"))
             elif it[0] == "ev":
                 e = it[1]
+                if e.startswith("cbpub:"):
+                    # publish() called by the application from inside on_publish (stream `reentry`)
+                    _, q_, rc_, mid_ = e.split(":")
+                    q_, rc_, mid_ = int(q_), int(rc_), int(mid_)
+                    info_rec.append({"mid": mid_, "done": False} if q_ > 0 and rc_ in (0, 4) else None)
+                    if q_ > 0 and rc_ in (0, 4, 7):
+                        seq += 1
+                        live[mid_] = {"qos": q_, "seq": seq, "rec": False, "wire": {}, "full": set(), "handed": set(),
+                                      "first_conn": None, "topic": "63622f74", "payload": "6362"}
+                        on_pub_count[seq] = 0
+                    continue
                 if e.startswith("on_publish:"):
                     m = int(e.split(":")[1])
                     if m in live:
@@ -363,7 +378,15 @@ def mon_out(stream, case, obs, want):
                         if final == m:
                             done_rec = live.pop(m)      # completed: its window slot is free from here on
                             final_done = True
+                            for r_ in info_rec:
+                                if r_ and r_["mid"] == m and not r_["done"]:
+                                    r_["done"] = True
+                                    break
         if final is not None and final in live:
+            for r_ in info_rec:
+                if r_ and r_["mid"] == final and not r_["done"]:
+                    r_["done"] = True
+                    break
             r = live[final]
             if "once" in want and conforming and sock_before:
                 hits.append((i, "on-publish-missing", f"final ack for mid={final} delivered on connection {sock_before}, on_publish did not fire"))
@@ -379,6 +402,19 @@ def mon_out(stream, case, obs, want):
                     m_, st_, _ = x.split(".")
                     if int(m_) in live and st_ in ("wpa", "wprec", "wpcomp"):
                         live[int(m_)]["handed"].add(hc)
+        # MQTTMessageInfo of a QoS 1/2 message reports published exactly from its final acknowledgement on
+        if "once" in want and conforming and p.get("infos"):
+            flags = p["infos"].split(",")
+            for k_, r_ in enumerate(info_rec):
+                if r_ is None or k_ >= len(flags):
+                    continue
+                pub_ = flags[k_].endswith("+")
+                if pub_ and not r_["done"]:
+                    hits.append((i, "info-published-early", f"MQTTMessageInfo of mid={r_['mid']} (publish #{k_ + 1}) reports published before the broker's final acknowledgement"))
+                    r_["done"] = True       # report once
+                elif r_["done"] and not pub_ and sock_before:
+                    hits.append((i, "info-not-published", f"mid={r_['mid']} (publish #{k_ + 1}) was finally acknowledged but its MQTTMessageInfo does not report published"))
+                    info_rec[k_] = None
         # ownership: every live message is still held by the client
         if "own" in want and conforming:
             held = {int(x.split(".")[0]) for x in p.get("out", "[]").strip("[]").split(",") if x}
@@ -414,7 +450,8 @@ def mon_C02(stream, case, obs):
 
 
 def mon_C12(stream, case, obs):
-    return mon_out(stream, case, obs, {"window", "queue", "idle"})
+    # (release in publish() order is part of C12's statement as well as of C13's)
+    return mon_out(stream, case, obs, {"window", "queue", "idle", "order"})
 
 
 def mon_C13(stream, case, obs):
@@ -589,6 +626,7 @@ def mon_C08(stream, case, obs):
     now = 0
     last_tx = {}          # conn -> time of last accepted byte
     ping_at = None        # time the outstanding PINGREQ was written (current connection)
+    prev_ping = "0"
     established = False
     cur = 0
     for st in tr.steps:
@@ -612,6 +650,8 @@ def mon_C08(stream, case, obs):
                 if K == 0:
                     hits.append((i, "k0-timeout", "keep-alive timeout reported although keepalive is 0"))
         cur = int(p.get("sock", "0"))
+        # what held on the connection this step started with (a step that closes it is judged against that)
+        ping_before, est_before = ping_at, established
         if cur != sock_before:
             ping_at = None
             established = False
@@ -620,6 +660,8 @@ def mon_C08(stream, case, obs):
         if t[0] == "rx" and t[1] == "pingresp" and sock_before and cur == sock_before:
             ping_at = None
         if K > 0 and t[0] == "loop_misc" and sock_before:
+            ping_at_now, ping_at = ping_at, ping_before
+            established_now, established = established, est_before
             idle = now - last_tx.get(sock_before, now)
             if ping_at is not None and now - ping_at >= K:
                 # dead peer: must close now, report once, non-zero result
@@ -629,15 +671,47 @@ def mon_C08(stream, case, obs):
                     hits.append((i, "timeout-report", f"keep-alive timeout reported {disc16} times through on_disconnect"))
                 elif not any(e.startswith("ret:") and e != "ret:0" for e in st["evs"]) or p.get("st") == "connected":
                     hits.append((i, "timeout-result", f"keep-alive timeout: loop_misc result {st['evs']} state {p.get('st')}"))
+            elif disc16 and established:
+                # (no PINGREQ written on this connection has been unanswered for K)
+                hits.append((i, "spurious-timeout", f"connection closed for keep-alive although no PINGREQ was unanswered for K on it (outstanding since {ping_at}, now {now})"))
             elif established and ping_at is None and idle >= K and p.get("st") in ("connected", "lost", "disconnected", "disconnecting"):
                 blocked = p.get("ww") == "1"
                 if not wrote_ping and not blocked and cur == sock_before:
                     hits.append((i, "ping-missed", f"idle for {idle} ms >= K={K} on an established connection and no PINGREQ was written"))
-            elif disc16 and (ping_at is None or now - ping_at < K) and established:
-                hits.append((i, "spurious-timeout", f"connection closed for keep-alive although no PINGREQ was unanswered for K (outstanding since {ping_at}, now {now})"))
-        if wrote_ping and cur == sock_before:
+            ping_at, established = ping_at_now, established_now
+        # a PINGREQ counts as outstanding from the moment the client hands it to the transport - or queues it behind
+        # data the application has not flushed yet (external loop / blocked socket): `ping` 0 -> 1 in the probe
+        queued_ping = t[0] == "loop_misc" and prev_ping == "0" and p.get("ping") == "1"
+        if (wrote_ping or queued_ping) and cur == sock_before and ping_at is None:
             ping_at = now
+        prev_ping = p.get("ping", "0")
     return hits
 
 
-MONITORS = {"C06": mon_C06, "C08": mon_C08, "C01": mon_C01, "C02": mon_C02, "C03": mon_C03, "C10": mon_C10, "C12": mon_C12, "C13": mon_C13, "C16": mon_C16}
+def mon_C14(stream, case, obs):
+    """packet ids on the session level: every id handed out lies in 1..65535 and an accepted QoS 1/2 publish never gets
+    an id that still belongs to a message the client owns (accepted, final acknowledgement not yet seen)"""
+    tr = Trace(case, obs)
+    hits = []
+    live = set()
+    for st in tr.steps:
+        i, t, p = st["i"], st["t"], st["p"]
+        if t[0] == "cfg":
+            continue
+        owned = {int(x.split(".")[0]) for x in p.get("out", "[]").strip("[]").split(",") if x}
+        if t[0] in ("publish", "subscribe", "unsubscribe"):
+            ret = [e for e in st["evs"] if e.startswith("ret:")]
+            if ret and len(ret[0].split(":")) > 2:
+                rc, mid = int(ret[0].split(":")[1]), int(ret[0].split(":")[2])
+                if not 1 <= mid <= 65535:
+                    hits.append((i, "mid-range", f"{t[0]}() returned packet id {mid}"))
+                if t[0] == "publish" and int(t[1]) > 0 and rc in (0, 4):
+                    if mid in live:
+                        hits.append((i, "mid-shared", f"publish() accepted a QoS {t[1]} message with packet id {mid}, which still belongs to an unacknowledged message"))
+                    live.add(mid)
+        # ids leave `live` when the client no longer owns the message
+        live &= owned
+    return hits
+
+
+MONITORS = {"C14": mon_C14, "C06": mon_C06, "C08": mon_C08, "C01": mon_C01, "C02": mon_C02, "C03": mon_C03, "C10": mon_C10, "C12": mon_C12, "C13": mon_C13, "C16": mon_C16}
